@@ -480,6 +480,27 @@ func genMemStream(p *params, emit func(string, bool)) {
 	// witness of F11: StreamFromLatest on an empty stream must deliver what is sent afterwards
 	emit("mst n.1.1.1.1 s.1.7 s.1.8 r.1 a.1 r.1", true)
 	emit("mst s.1.5 n.1.1.1.1 r.1 s.1.7 r.1 a.1 n.2.1.1.1 r.2", true)
+	// late and repeated acknowledgements: an Ack commits the position after ITS event, whatever was committed meanwhile
+	emit("mst s.1.1 s.1.2 s.1.3 n.1.1.1.0 r.1 n.2.1.1.0 r.2 a.2 a.1 r.2 a.2 r.2", true)
+	emit("mst s.1.1 s.1.2 s.1.3 n.1.1.1.0 r.1 a.1 a.1 r.1 a.1 r.1", true)
+	emit("mco 3 n.1.0.1.0 r.1 n.2.0.1.0 r.2 a.2 a.1 r.2 a.2 r.2", true)
+	emit("mco 3 n.1.0.1.0 r.1 a.1 a.1 r.1 a.1 r.1", true)
+	for i := 0; i < p.pick(150, 3000); i++ {
+		ops := []string{}
+		for j := 0; j < 3+r.Intn(4); j++ {
+			ops = append(ops, fmt.Sprintf("s.1.%d", j+1))
+		}
+		ops = append(ops, "n.1.1.1.0", "n.2.1.1.0")
+		for j := 0; j < 6+r.Intn(8); j++ {
+			ops = append(ops, []string{"r.1", "r.2", "a.1", "a.2"}[r.Intn(4)])
+		}
+		emit("mst "+strings.Join(ops, " "), true)
+		cops := []string{itoa(3 + r.Intn(4)), "n.1.0.1.0", "n.2.0.1.0"}
+		for j := 0; j < 6+r.Intn(8); j++ {
+			cops = append(cops, []string{"r.1", "r.2", "a.1", "a.2"}[r.Intn(4)])
+		}
+		emit("mco "+strings.Join(cops, " "), true)
+	}
 	alpha := []string{"s.1.7", "s.2.8", "n.1.1.1.0", "n.2.1.1.0", "n.3.2.2.1", "r.1", "r.2", "r.3", "a.1", "a.2", "a.3"}
 	depth := p.pick(4, 5)
 	var rec func(prefix []string, d int)
